@@ -4,7 +4,10 @@
    "lambda_stmt(l0) + l1 + ..." (each link: code object + closure cell values) - analysis once per code object
    from the first closure, cache key from the structural cells, skeleton cached per chain key, bound values
    re-extracted on every construction; [direct_chain] is the same expressions built without lambda_stmt.
-   F = what helper functions do, U = the body of each lambda (as a list of uses of its closure cells). *)
+   F = what helper functions do, U = the body of each lambda (as a list of uses of its closure cells).
+   Assumption built into the model: a code object determines the body of the lambda, including what its global
+   names refer to (false for textually identical lambdas on the same line of two modules - code objects compare
+   by value and ignore the file name: finding C17-equal-code-objects-share-cache, reproduced on every run). *)
 From Coq Require Import List NArith ZArith Bool.
 Import ListNotations.
 From SAV.sql Require Import Lambda LambdaBase LambdaProofs LambdaMain LambdaExtra.
